@@ -11,6 +11,16 @@ DONE = {
   'implementation, extracted model and extracted spec are compared on every cell of the threshold arrangement and on random points.',
   'regenerated Gallina model + Coq theorems (lra cell decomposition) + differential check vs extracted model/spec',
   'CPython float semantics modelled as exact rationals of doubles (margin rule at rounding ties). Print Assumptions: closed under the global context.'),
+ 'C19': ('§5.C19',
+  'The query built by get_intersection (INNER JOIN of all tables, equality on every match key for every pair of tables, one slice of the '
+  'joined row per table) is modelled as a nested-loop join; Coq proves, for any number of structures and any match keys, the exact '
+  'characterisation of the result (tuple in result iff row i is an atom of structure i and all rows match pairwise), row alignment, own values, '
+  'and that no common atom is left out. Implementation, extracted model and the look-up specification are compared as sorted aligned tuples on '
+  'families of 2-4 structures derived by deletions, permutations and coordinate changes, for several match-key subsets and attribute lists; '
+  'get_all, per-table get and intersect() are compared with each structure\'s own atoms.',
+  'hand-written Gallina join model + Coq theorems (induction over the table list) + differential check vs extracted model/spec',
+  'SQLite INNER JOIN semantics is an oracle validated on every run (result order canonicalised). Keys assumed non-NULL. '
+  'Empty intersections hit known finding F17 in intersect(). Print Assumptions: closed under the global context.'),
  'C02': ('§5.C02',
   'The coordinate formatter, the atom-name aligner and the sequence of format specifications of data2pdb are regenerated from the source '
   'on every run; Coq proves for all rationals that a coordinate raises exactly outside (-1e7+0.5, 1e8-0.5) and otherwise occupies exactly 8 '
